@@ -72,7 +72,19 @@ pub fn batches(check: &str) -> Vec<Batch> {
         "C16" => vec![b("names", { let mut o = GenOpts::base(&all_kinds()).emph(Names, 40).emph(AddVars, 12).emph(Order, 6).emph(Gc, 4); o.max_vars = 8; o }, 1)],
         // C14 / C15 / C20 have their own drivers but share these generators
         "C14" => vec![b("oom-targets", { let mut o = GenOpts::base(&all_kinds()).emph(Quant, 8).emph(Subst, 8).emph(Pick, 8).emph(Order, 0); o.max_len = 25; o.allow_names = false; o.allow_order = false; o }, 1)],
-        "C15" => vec![b("dddmp", { let mut o = GenOpts::base(&[Kind::Bdd, Kind::Bcdd, Kind::Zbdd]).emph(Dddmp, 40).emph(Order, 8).emph(Names, 14).emph(AddVars, 6); o.allow_dddmp = true; o.max_vars = 8; o }, 1)],
+        "C15" => {
+            let mk = |mode: u32| {
+                let mut ks = vec![Kind::Bdd, Kind::Bcdd, Kind::Zbdd];
+                ks.extend(mt_kinds());
+                let mut o = GenOpts::base(&ks).emph(Dddmp, 30).emph(Order, 8).emph(Names, 14).emph(AddVars, 6).emph(Leaf, 8);
+                o.allow_dddmp = true;
+                o.max_vars = 8;
+                o.io_mode = mode;
+                o.max_len = 30;
+                o
+            };
+            vec![b("dddmp-fault-free", mk(0), 3), b("dddmp-io-faults", mk(1), 2), b("dddmp-stored-byte-faults", mk(2), 1)]
+        }
         "C20" => vec![b("config-equivalence", { let mut o = GenOpts::base(&all_kinds()).emph(Order, 8).emph(Gc, 6); o }, 1)],
         _ => vec![],
     }
